@@ -29,7 +29,7 @@ try:
             s = s.replace(old, new)
         open(p, "w").write(s)
     d = subprocess.run(["git", "-C", tmp + "/w", "diff"], stdout=subprocess.PIPE, text=True).stdout
-    out = os.path.join(os.path.dirname(os.path.abspath(__file__)), "mutants", name + ".diff")
+    out = os.path.join(os.path.dirname(os.path.abspath(__file__)), os.environ.get("MUT_DIR", "mutants"), name + ".diff")
     open(out, "w").write("# props: %s\n# what: %s\n%s" % (props, what, d))
     print("wrote", out, len(d.splitlines()), "lines")
 finally:
